@@ -14,6 +14,10 @@ ASSUMPTIONS = [
 ]
 TRUSTED = []
 EXPLORED_ONLY = [
+    "the public byte_len setter only re-declares the width: value and octets keep what they held until the next "
+    "assignment to `value` (judged a two-step resize protocol by design, not a defect: narrowing must be followed by a "
+    "new value anyway).  Modelled faithfully (Model/UtilHist.v); the oracle demands coherent views after every ACCEPTED "
+    "assignment in the current width and an untouched object after every refused operation",
     "non-int / bool constructor arguments (value setter silently ignores other types)",
     "ByteFieldU8/U16/U32/U64.from_bytes inherited from the base class raises TypeError (cls(val, len) against a "
     "one-argument __init__); not an entry point the property names",
@@ -100,6 +104,7 @@ def impl(op, a):
     if op == 217:
         f = _mk_any(a[0])
         out = _obs_any(f)
+        kept = bytearray()            # the caller's buffer, re-used (and edited in place) across assignments
         for o in a[1:]:
             k = o[0]
             try:
@@ -107,14 +112,15 @@ def impl(op, a):
                     f.value = o[1]
                 elif k == 1:
                     f.value = bytes(o[1:])
-                elif k == 2:
-                    buf = bytearray(o[1:])
+                elif k in (2, 6):
+                    if k == 2:
+                        kept = bytearray(o[1:])
+                    elif list(kept) != o[1:]:
+                        raise RuntimeError("history op 6 does not carry the buffer's present content")
                     try:
-                        f.value = buf
+                        f.value = kept
                     finally:      # the caller re-uses its buffer: the field must not follow
-                        for i in range(len(buf)):
-                            buf[i] ^= 0xFF
-                        buf.extend(b"\x5a")
+                        _scramble(kept)
                 elif k == 3:
                     f.byte_len = o[1]
                 elif k == 4:
@@ -133,6 +139,17 @@ def impl(op, a):
     raise RuntimeError("bad op")
 
 
+def _scramble(buf):
+    for i in range(len(buf)):
+        buf[i] ^= 0xFF
+    buf.extend(b"\x5a")
+
+
+def scrambled(b):
+    """content of the caller's bytearray after the adapter has edited it in place"""
+    return [x ^ 0xFF for x in b] + [0x5A]
+
+
 def _mk_any(l):
     """the initial object of a history through every construction path (l = [value, width, path])"""
     v, w, kind = l[0], l[1], (l[2] if len(l) > 2 else 0)
@@ -145,7 +162,10 @@ def _mk_any(l):
     if kind == 4 and w == 0:
         return U.ByteFieldEmpty()
     if kind == 5:
-        return U.UnsignedByteField.from_bytes(bytearray(be(w, v)))
+        buf = bytearray(be(w, v))
+        f = U.UnsignedByteField.from_bytes(buf)
+        _scramble(buf)
+        return f
     return U.UnsignedByteField(v, w)
 
 
@@ -354,8 +374,14 @@ def streams(tier, rng):
     for _ in range(8000 if big else 1500):
         w = rng.choice(WIDTHS)
         ops = []
+        kept = None
         for _ in range(rng.randrange(1, 11)):
-            ops.append(_rand_hop(rng, w))
+            if kept is not None and rng.random() < 0.2:
+                ops.append([6] + kept)
+            else:
+                ops.append(_rand_hop(rng, w))
+            if ops[-1][0] in (2, 6):
+                kept = scrambled(ops[-1][1:])
             if ops[-1][0] == 3 and ops[-1][1] in WIDTHS:
                 w = ops[-1][1]
         w0 = rng.choice(WIDTHS)
@@ -389,6 +415,8 @@ def streams(tier, rng):
             for follow in [[4], [5], [0, v], [0, other], [1] + be(w1, v), [1] + be(w2, other) + [9, 9], [2] + be(w2, other),
                            [3, w1], [0, v ^ 1]] + same_new:
                 cases.append((217, [[v, w1, rng.randrange(6)], [3, w2], follow, [4], [0, v ^ 1], [0, v], [5]]))
+            b0 = be(w1, v) + [0x80, 0xFF] * 4
+            cases.append((217, [[v, w1, rng.randrange(6)], [2] + b0, [6] + scrambled(b0), [3, w2], [6] + scrambled(scrambled(b0)), [4]]))
     yield "exh_resize_matrix", "exact", cases
     # 6e. buffer sizes: every octet-string length 0..1100 (thorough 0..4200) at every entry point that takes octets
     cases = []
@@ -614,7 +642,8 @@ def _oracle_live(a, ires):
         k = o[0]
         cur_b = prev[1]
         what = {0: "value = %s" % (o[1:2],), 1: "value = bytes(%s)" % (o[1:12],), 2: "value = bytearray(%s)" % (o[1:12],),
-                3: "byte_len = %s" % (o[1:2],), 4: "value = value", 5: "value = as_bytes"}[k]
+                3: "byte_len = %s" % (o[1:2],), 4: "value = value", 5: "value = as_bytes",
+                6: "value = <the caller's re-used bytearray, now %s>" % (o[1:12],)}[k]
         if k == 3:
             if o[1] in WIDTHS:
                 if st != [0]:
@@ -632,7 +661,7 @@ def _oracle_live(a, ires):
             nv = o[1] if k == 0 else v
             ok = valid(nv, w)
         else:
-            src = o[1:] if k in (1, 2) else cur_b
+            src = o[1:] if k in (1, 2, 6) else cur_b
             ok = len(src) >= w
             nv = be_dec(src[:w])
         if ok:
